@@ -325,7 +325,7 @@ def gen_case(rng, big=False):
         t = rng.choice([0, 0] + list(range(1, nt)))
         for _ in range(rng.choice([1, 1, 2, 3, 5, 8])):
             sched.append([t, rng.randrange(3)])
-    sched += drain_sched(nt, 6 + 4 * njobs)
+    sched += drain_sched(nt, 4 + 3 * njobs)
     return {"size": size, "min": minw, "njobs": njobs, "close": close, "sched": sched}
 
 
@@ -337,7 +337,7 @@ def family_cases():
         for a in range(8, 26, 2):
             for b in range(0, 14, 2):
                 sched = [[0, 0]] * a + [[1, 0]] * b + [[0, 0]] * 14 + [[2, 0]] * 6
-                sched += drain_sched(size + 2, 6 + 4 * njobs)
+                sched += drain_sched(size + 2, 4 + 3 * njobs)
                 out.append({"size": size, "min": minw, "njobs": njobs, "close": close, "sched": sched})
     return out
 
@@ -354,7 +354,7 @@ def gen_race_case(rng, big=False):
         t = rng.choice([0, 0, 1, 1] + list(range(2, nt)))
         for _ in range(rng.choice([1, 1, 2, 3, 5, 8])):
             sched.append([t, rng.randrange(3)])
-    sched += drain_sched(nt, 6 + 4 * njobs)
+    sched += drain_sched(nt, 4 + 3 * njobs)
     return {"size": size, "min": minw, "njobs": njobs, "close": False, "race": True, "sched": sched}
 
 
@@ -366,7 +366,7 @@ def family_race_cases():
         for m in (0, 4, 9):
             for a in range(0, 17):
                 sched = [[0, 0]] * m + [[1, 0]] * a + [[0, 0]] * 13 + [[2, 0]] * 5 + [[1, 0]] * 6 + [[0, 0]] * 6
-                sched += drain_sched(size + 3, 6 + 4 * njobs)
+                sched += drain_sched(size + 3, 4 + 3 * njobs)
                 out.append({"size": size, "min": minw, "njobs": njobs, "close": False, "race": True, "sched": sched})
     return out
 
@@ -411,10 +411,10 @@ def execute(ctx, cases, model_ok, res):
 def all_cases(ctx):
     rng = ctx.rng
     cases = vlib.load_corpus(PROP) + family_cases()
-    for _ in range(ctx.n(900, 5500)):
+    for _ in range(ctx.n(450, 6000)):
         cases.append(gen_case(rng, big=not ctx.quick))
     cases += family_race_cases()
-    for _ in range(ctx.n(200, 1500)):
+    for _ in range(ctx.n(100, 1800)):
         cases.append(gen_race_case(rng, big=not ctx.quick))
     return cases
 
